@@ -26,7 +26,8 @@ Definition exn_name (e : exn) : bytes :=
 (* cache: one namespace with str keys (embedder / interpreter) and bytes keys (script) *)
 Inductive ckey := KStr (s : bytes) | KBytes (b : bytes).
 Inductive atom :=
-| ABytes (b : bytes) | AStr (b : bytes) | AInt (z : Z) | AFloat (b : bytes) | ABool (b : bool) | AOther.
+| ABytes (b : bytes) | AStr (b : bytes) | AInt (z : Z) | AFloat (b : bytes) | ABool (b : bool) | AOther
+| AByteArr (b : bytes).   (* a bytearray supplied by the embedder: Stack.put rejects it (TypeError) *)
 Inductive cval := VOne (a : atom) | VMany (l : list atom).
 
 Definition ckey_eqb (a b : ckey) : bool :=
